@@ -13,6 +13,8 @@ def _make_history(profile, tid, s, nv, steps):
         return history.reorder_history(tid, s, nv, steps, held_n=40)
     if profile == 'decl':
         return history.decl_history(tid, s, steps)
+    if profile == 'stream':
+        return history.stream_history(tid, s, nv, steps, reorder_between=(tid % 3 == 2))
     if profile == 'allfun':
         import itertools
         ps = list(itertools.permutations(history.ALL_NAMES[:nv]))
